@@ -48,6 +48,22 @@ CLAIMS = {
             "configured policy; a plain compaction writes every entry it reads and leaves its loop only at end of input; "
             "inputs are removed/opened/merged/summed and outputs added/linked/recorded/summed; GC's drops equal its discard.  "
             "Does not decide multiset equality of contents or GC policy semantics.", "§4 C05"),
+    "C06": ("HELD lock-guard dataflow (must/may), ORDER, GUARDED, WRITES and ORIGIN over KeyValueStore::{write,load,range_scan,_memtable_thread}",
+            "Decides the critical-section and completion-order skeleton linearizability needs: one critical section assigns queue "
+            "position, sequence number, memtable and log; Ok only after append < insert < head-of-list wait < unlink < notify; "
+            "readers capture (mem, imm, version, timestamp) in one critical section; rollover swaps and drains in one critical "
+            "section and clears imm after ingest; the readers' timestamp field is advanced only after the batch is inserted and "
+            "at the head of the list.  Does not decide linearizability over all interleavings.", "§4 C06"),
+    "C18": ("ORDER/MUSTPASS/loop-body MUSTPASS/HELD/WRITES over do_work, WaitList and the LRU; lock-order graph of sync42",
+            "Decides hand-off and accounting pairing: every do_work exit unlinks then notifies, returns its own waiter's Output, "
+            "the leader publishes every taken waiter's output before leaving and clears doing_work; wait-list head/tail change "
+            "only under its lock in link/_unlink; LRU size and key map change together and nodes are freed after unmapping, "
+            "raw derefs only under the cache lock.  Does not decide exactly-once/ordering under all interleavings.", "§4 C18"),
+    "C20": ("whole-program Acquires/MayWait summaries (call graph + typed Drop glue) -> lock-order graph cycles; condvar wait/notify discipline via HELD; ORDER/MUSTPASS for announcements and claim release",
+            "Decides deadlock-freedom structure: no two locks are taken in both orders (one flag-gated pair checked and excepted), "
+            "waits re-check their predicate inside one critical section, notifications cannot race a predicate check, the set of "
+            "(lock held, condvar waited) pairs equals a triaged table, every awaited state change is announced, failed compactions "
+            "release their claim.  Does not decide that a relieving compaction is always selectable, nor fairness.", "§4 C20"),
 }
 
 NA_DEFAULT = "check not built yet (DESIGN.md §8 build order); will be claimed once its rule set is armed"
